@@ -219,7 +219,7 @@ def r3_insertion_rule(ctx):
         return any(y[0] == 'agg' and 'RangeFrom' in str(y[1]) and any(z[0] == 'call' and z[1].endswith('::rposition') for z in walk(y)) for y in walk(x[2][0]))
     fwd = [x for x in fwd_all if not _is_tail_scan(x)]
     ctx.check(bool(rp) and not fwd, 'start-after-last-parent-match', 'the scan starts right after the last entry equal to the parent', s.where(), show(pos)[:200])
-    plus1 = any(x[0] == 'bin' and x[1].startswith('Add') and x[3] == ('int', 1) for x in walk(pos))
+    plus1 = any(x[0] == 'bin' and x[1].startswith('Add') and (x[3] == ('int', 1) or x[2] == ('int', 1)) for x in walk(pos))
     ctx.check(plus1, 'start-plus-one', 'the scan starts one past the parent', s.where())
     # advance predicate: inside the loop, pos += 1 is guarded by  len(modules[pos].path) > len(parent)
     adv = []
